@@ -11,10 +11,12 @@ From C08 Require Import Model Spec Proofs.
 Import ListNotations.
 Open Scope list_scope.
 
-Definition is_def (e : sexp) (d : string * def) : Prop := parse_defun e = Some (fst d, fst (snd d), snd (snd d)).
+(* e is a top-level defun form (no closure) making the definition d *)
+Definition is_def (e : sexp) (d : string * def) : Prop :=
+  parse_defun e = Some (fst d, fst (fst (snd d)), snd (fst (snd d))) /\ snd (snd d) = [].
 Definition defs_are (es : list sexp) (ds : list (string * def)) : Prop := Forall2 is_def es ds.
-(* a main form: neither defun nor defvar/defparameter *)
-Definition plain (e : sexp) : Prop := parse_defun e = None /\ parse_gdef e = None.
+(* a main form: neither defun, nor let around a defun, nor defvar/defparameter *)
+Definition plain (e : sexp) : Prop := parse_defun e = None /\ parse_letdefun e = None /\ parse_gdef e = None.
 
 (* plain forms one after the other: the value of the last; the first condition ends the evaluation *)
 Fixpoint eval_forms (n : nat) (ft : ftab) (gv : env) (o : list value) (es : list sexp) (lastv : value) : res * list value :=
@@ -27,15 +29,15 @@ Lemma run_plain : forall n es ft gv o v, Forall plain es ->
   run_formsS n ft gv o (map TForm es) v = (fst (eval_forms n ft gv o es v), snd (eval_forms n ft gv o es v), ft, gv).
 Proof.
   intros n. induction es as [|e r IH]; simpl; intros ft gv o v F; auto.
-  inversion F as [|? ? [PD PG] F']; subst. rewrite PD, PG.
+  inversion F as [|? ? [PD [PL PG]] F']; subst. rewrite PD, PL, PG.
   destruct (evalS n ft gv o e) as [[w|er|] o1]; simpl; auto.
 Qed.
 Definition last_name (ds : list (string * def)) (v : value) : value := fold_left (fun _ d => VSym (fst d)) ds v.
 Lemma run_defs : forall n es ds, defs_are es ds -> forall ft gv o rest v,
   run_formsS n ft gv o (map TForm es ++ rest) v = run_formsS n (deftab ds ft) gv o rest (last_name ds v).
 Proof.
-  intros n es ds D. induction D as [|e [nm [ps body]] es ds HD D IH]; simpl; intros ft gv o rest v; auto.
-  unfold is_def in HD. simpl in HD. rewrite HD. apply IH.
+  intros n es ds D. induction D as [|e [nm [[ps body] clos]] es ds [HD HC] D IH]; simpl; intros ft gv o rest v; auto.
+  simpl in HD, HC. subst clos. rewrite HD. apply IH.
 Qed.
 Lemma eval_forms_lastv : forall n ft gv o es v v', es <> [] -> eval_forms n ft gv o es v = eval_forms n ft gv o es v'.
 Proof. intros n ft gv o es v v' NE. destruct es as [|e r]; [congruence|reflexivity]. Qed.
@@ -45,13 +47,13 @@ Proof.
   intros n ft ft' gv H. induction es as [|e r IH]; simpl; intros o v; auto.
   rewrite (evalS_ext ft ft' H). destruct (evalS n ft' gv o e) as [[w|er|] o1]; auto.
 Qed.
-Lemma compile_program : forall es ds, defs_are es ds -> forall mains ft gv, Forall plain mains ->
-  compile_defsS ft gv (map TForm es ++ map TForm mains) =
-    (deftab ds ft, gv, map TQuote (map fst ds) ++ map TForm mains).
+Lemma compile_program : forall n es ds, defs_are es ds -> forall mains ft gv o, Forall plain mains ->
+  compile_defsS n ft gv o (map TForm es ++ map TForm mains) =
+    (Val VNil, o, deftab ds ft, gv, map TQuote (map fst ds) ++ map TForm mains).
 Proof.
-  intros es ds D. induction D as [|e [nm [ps body]] es ds HD D IH]; simpl; intros mains ft gv F.
-  - induction F as [|e r [PD PG] F IHF]; simpl; auto. rewrite PD, PG, IHF. reflexivity.
-  - unfold is_def in HD. simpl in HD. rewrite HD. rewrite (IH mains _ gv F). reflexivity.
+  intros n es ds D. induction D as [|e [nm [[ps body] clos]] es ds [HD HC] D IH]; simpl; intros mains ft gv o F.
+  - induction F as [|e r [PD [PL PG]] F IHF]; simpl; auto. rewrite PD, PL, PG, IHF. reflexivity.
+  - simpl in HD, HC. subst clos. rewrite HD. rewrite (IH mains _ gv o F). reflexivity.
 Qed.
 Lemma run_quotes : forall n names ft gv o rest v,
   run_formsS n ft gv o (map TQuote names ++ rest) v = run_formsS n ft gv o rest (fold_left (fun _ nm => VSym nm) names v).
@@ -105,14 +107,16 @@ Section Program.
     change (sft s1) with (sft s2) in EV. change (sgv s1) with (sgv s2) in EV. rewrite <- EV. apply IH; auto.
   Qed.
 
-  (* S: compiled or not, first or k-th evaluation: always `meaning` *)
+  (* S: compiled or not, first or k-th evaluation: always `meaning` (Code.Compile itself answers nil and emits
+     nothing: the definitions of the block are function definitions) *)
   Theorem program_meaning_S : forall s cid cmp k,
-    runS n s (prog cid es mains cmp k) = repeat (meaning n ds mains (sft s) (sgv s)) k.
+    runS n s (prog cid es mains cmp k) =
+      (if cmp then [(Val VNil, [])] else []) ++ repeat (meaning n ds mains (sft s) (sgv s)) k.
   Proof.
     intros s cid cmp k. unfold prog, meaning. simpl. rewrite map_app.
     set (s0 := mkS (sft s) (sgv s) ((cid, map TForm es ++ map TForm mains) :: scodes s)).
     destruct cmp; simpl.
-    - rewrite Nat.eqb_refl. rewrite (compile_program es ds D mains _ _ PL).
+    - rewrite Nat.eqb_refl. rewrite (compile_program n es ds D mains _ _ _ PL). simpl. f_equal.
       set (s1 := mkS (deftab ds (sft s)) (sgv s)
                      ((cid, map TQuote (map fst ds) ++ map TForm mains) :: scodes s0)).
       change (runS n s1 (repeat (ORun cid) k) = repeat (eval_forms n (sft s1) (sgv s1) [] mains VNil) k).
@@ -129,10 +133,18 @@ Proof.
   intros. unfold meaning. apply eval_forms_ext. intros f. apply deftab_order_independent; auto.
 Qed.
 
-Lemma osim_repeat : forall x k l, Forall2 osim (repeat x k) l -> comparable (fst x) = true -> l = repeat x k.
+Lemma osim_all : forall xs l, Forall2 osim xs l -> Forall (fun x => comparable (fst x) = true) xs -> l = xs.
 Proof.
-  intros x. induction k as [|k IH]; simpl; intros l F C; inversion F as [|? y ? l' [O _] F']; subst; auto.
-  rewrite (O C). f_equal. apply IH; auto.
+  induction xs as [|x xs IH]; intros l F C; inversion F as [|? y ? l' [O _] F']; subst; auto.
+  inversion C as [|? ? Cx Cr]; subst. rewrite (O Cx). f_equal. apply IH; auto.
+Qed.
+Definition expected (n : nat) (ds : list (string * def)) (mains : list sexp) (s : sstate) (cmp : bool) (k : nat) : list obs :=
+  (if cmp then [(Val VNil, [])] else []) ++ repeat (meaning n ds mains (sft s) (sgv s)) k.
+Lemma expected_comparable : forall n ds mains s cmp k, comparable (fst (meaning n ds mains (sft s) (sgv s))) = true ->
+  Forall (fun x => comparable (fst x) = true) (expected n ds mains s cmp k).
+Proof.
+  intros. unfold expected. apply Forall_app. split; [destruct cmp; repeat constructor|].
+  induction k; simpl; constructor; auto.
 Qed.
 
 (* M: started in any state related to S's, two programs with the same main forms and the same definitions in any
@@ -143,14 +155,16 @@ Theorem program_meaning_M : forall n m s es es' ds ds' mains cid cid' cmp cmp' k
   HInv m s -> defs_are es ds -> defs_are es' ds' -> Permutation ds ds' -> NoDup (map fst ds) ->
   Forall plain mains -> mains <> [] ->
   comparable (fst (meaning n ds mains (sft s) (sgv s))) = true ->
-  runM n m (prog cid es mains cmp k) = repeat (meaning n ds mains (sft s) (sgv s)) k /\
-  runM n m (prog cid' es' mains cmp' k') = repeat (meaning n ds mains (sft s) (sgv s)) k'.
+  runM n m (prog cid es mains cmp k) = expected n ds mains s cmp k /\
+  runM n m (prog cid' es' mains cmp' k') = expected n ds mains s cmp' k'.
 Proof.
   intros n m s es es' ds ds' mains cid cid' cmp cmp' k k' H D D' P ND PL NE C.
   split.
-  - apply osim_repeat; auto. rewrite <- (program_meaning_S n es mains ds D PL NE s cid cmp k).
+  - apply osim_all; [|apply expected_comparable; auto]. unfold expected.
+    rewrite <- (program_meaning_S n es mains ds D PL NE s cid cmp k).
     apply history_refines_from; auto.
-  - apply osim_repeat; auto. rewrite (program_order_S n ds ds' mains _ _ P ND).
+  - apply osim_all; [|apply expected_comparable; auto]. unfold expected.
+    rewrite (program_order_S n ds ds' mains _ _ P ND).
     rewrite <- (program_meaning_S n es' mains ds' D' PL NE s cid' cmp' k').
     apply history_refines_from; auto.
 Qed.
@@ -158,8 +172,8 @@ Qed.
 Corollary program_meaning_init : forall n es es' ds ds' mains cid cid' cmp cmp' k k',
   defs_are es ds -> defs_are es' ds' -> Permutation ds ds' -> NoDup (map fst ds) ->
   Forall plain mains -> mains <> [] -> comparable (fst (meaning n ds mains [] [])) = true ->
-  runM n minit (prog cid es mains cmp k) = repeat (meaning n ds mains [] []) k /\
-  runM n minit (prog cid' es' mains cmp' k') = repeat (meaning n ds mains [] []) k'.
+  runM n minit (prog cid es mains cmp k) = expected n ds mains sinit cmp k /\
+  runM n minit (prog cid' es' mains cmp' k') = expected n ds mains sinit cmp' k'.
 Proof.
   intros n es es' ds ds' mains cid cid' cmp cmp' k k' D D' P ND PL NE C.
   apply (program_meaning_M n minit sinit es es' ds ds'); auto. apply HInv_init.
@@ -170,15 +184,15 @@ Open Scope string_scope.
 Definition pd_caller : sexp := dfn 1 "caller" 2 ["a"] [SList 3 [SSym "callee"; SSym "a"; SInt 2]].
 Definition pd_callee : sexp := dfn 4 "callee" 5 ["p"; "q"] [SList 6 [SSym "list"; SSym "p"; SList 7 [SSym "emit"; SSym "q"]]].
 Definition pd_ds : list (string * def) :=
-  [("caller", (["a"], [SList 3 [SSym "callee"; SSym "a"; SInt 2]]));
-   ("callee", (["p"; "q"], [SList 6 [SSym "list"; SSym "p"; SList 7 [SSym "emit"; SSym "q"]]]))].
+  [("caller", (["a"], [SList 3 [SSym "callee"; SSym "a"; SInt 2]], []));
+   ("callee", (["p"; "q"], [SList 6 [SSym "list"; SSym "p"; SList 7 [SSym "emit"; SSym "q"]]], []))].
 Definition pd_mains : list sexp := [SList 8 [SSym "caller"; SInt 7]].
 Example program_demo :
   defs_are [pd_caller; pd_callee] pd_ds /\ defs_are [pd_callee; pd_caller] (rev pd_ds) /\
   Permutation pd_ds (rev pd_ds) /\ NoDup (map fst pd_ds) /\ Forall plain pd_mains /\ pd_mains <> [] /\
   meaning 50 pd_ds pd_mains [] [] = (Val (VList [VInt 7; VInt 2]), [VInt 2]) /\
-  runM 50 minit (prog 0 [pd_caller; pd_callee] pd_mains false 1) = repeat (meaning 50 pd_ds pd_mains [] []) 1 /\
-  runM 50 minit (prog 0 [pd_callee; pd_caller] pd_mains true 3) = repeat (meaning 50 pd_ds pd_mains [] []) 3.
+  runM 50 minit (prog 0 [pd_caller; pd_callee] pd_mains false 1) = expected 50 pd_ds pd_mains sinit false 1 /\
+  runM 50 minit (prog 0 [pd_callee; pd_caller] pd_mains true 3) = expected 50 pd_ds pd_mains sinit true 3.
 Proof.
   split; [repeat constructor|]. split; [repeat constructor|]. split; [apply Permutation_rev|].
   split; [repeat constructor; simpl; intuition discriminate|].
